@@ -23,7 +23,7 @@ def gen_cfg(R, tier, all_atom=None):
     if all_atom is None:
         all_atom = R.chance(0.3)
     nfr = R.choice([1, 2, 2, 3, 4])
-    labs = ['', '', 'A', 'B']
+    labs = ['', '', 'A', 'B', 'x2', 'c1']
     frags = {}
     texts = {}
     descs_all = []
@@ -86,7 +86,9 @@ def gen_cfg(R, tier, all_atom=None):
     kinds = sorted(set(descs_all))
 
     def key(dsc):
-        return dsc[:-1] if (dsc[-1] == '1' and R.chance(0.5)) else dsc
+        # the order suffix may be omitted in table keys, except after a label that ends in a digit
+        # (the API would read that digit as the order)
+        return dsc[:-1] if (dsc[-1] == '1' and not dsc[-2].isdigit() and R.chance(0.5)) else dsc
     pr = {}
     style = R.choice(['uniform', 'zeros', 'zeros', 'missing', 'empty'])
     if style != 'empty':
